@@ -200,7 +200,8 @@ impl GameData {
     fn parse_repository_category(&self, path: &str) -> Option<(&Repository, Category)> {
         let tokens = path.split_once('/')?;
 
-        let repository_token = tokens.1;
+        // the repository is named by the second path component only, e.g. "bg/ex1/..."
+        let repository_token = tokens.1.split('/').next()?;
 
         for repository in &self.repositories {
             if repository.name == repository_token {
